@@ -24,15 +24,28 @@ SetupStore(s, i) ==
   IF i > Len(Setup) THEN s ELSE SetupStore(PageStep(s, EmptyRam, DefRule, Setup[i].l, Setup[i].cr).st, i + 1)
 Store0 == Clean(SetupStore(EmptyStore, 1))
 
-(* the answer the query would give if asked right now, as a set of items *)
+(* the answer a finished (or drained) generator holds, as a set of items *)
+Result(g) == IF g.kind \in {"qnet", "qnetslow"} THEN { <<e[1], e[2]>> : e \in g.graph }
+             ELSE IF g.kind = "qtop" THEN { e.l : e \in SeqToSet(g.acc) }
+             ELSE IF g.kind = "qpagelinks" THEN { <<e[1], e[2]>> : e \in SeqToSet(g.acc) }
+             ELSE IF g.kind \in {"qlinks", "qchildren"} THEN g.acc
+             ELSE SeqToSet(g.acc)
+
+(* a query generator run alone to completion on store s (what the plain request does) *)
+RECURSIVE Drain(_, _)
+Drain(s, g) == IF g.done THEN g ELSE Drain(s, RunGen(s, EmptyRam, DefRule, g).g)
+
+(* the answer the query would give if asked right now, as a set of items: declaratively where *)
+(* Queries has the operator, else by draining a fresh copy of the generator                  *)
 Ans(s, g) ==
   IF g.kind \in {"qnet", "qnetslow"} THEN { <<e[1], e[2]>> : e \in NetFast(s.trie, s.ls, g.out, g.auto) }
   ELSE IF g.kind = "qtop" THEN { e.l : e \in SeqToSet(TopBlocks(s.trie, s.ls, g.ps, 1000, g.depth)) }
-  ELSE SeqToSet(ConcatWeDfs(s.trie, g.ps, 1))          \* page query: the pages of the webentity
-Result(g) == IF g.kind \in {"qnet", "qnetslow"} THEN { <<e[1], e[2]>> : e \in g.graph }
-             ELSE IF g.kind = "qtop" THEN { e.l : e \in SeqToSet(g.acc) }
-             ELSE SeqToSet(g.acc)
-Queries == { i \in 1..Len(Gens) : Gens[i].kind \in {"qnet", "qpages", "qnetslow", "qtop"} }
+  ELSE IF g.kind = "qpages" THEN SeqToSet(ConcatWeDfs(s.trie, g.ps, 1))          \* the pages of the webentity
+  ELSE IF g.kind = "qchildren" THEN ChildrenBlocks(s.trie, g.weid, g.ps)
+  ELSE IF g.kind = "qpagelinks"
+       THEN { <<e[1], e[2]>> : e \in WeLinksBlocks(s.trie, s.ls, g.weid, g.ps, g.inb, g.int, g.out) }
+  ELSE Result(Drain(s, g))
+Queries == { i \in 1..Len(Gens) : Gens[i].kind \in {"qnet", "qpages", "qnetslow", "qtop", "qlinks", "qchildren", "qpagelinks"} }
 
 Init ==
   /\ st = Store0 /\ ram = EmptyRam /\ gs = Gens
@@ -62,5 +75,9 @@ AloneExact ==
   \A q \in Queries : (gs[q].done /\ \A i \in 1..Len(gs) : i # q => gs[i] = Gens[i]) =>
      IF gs[q].kind = "qtop" THEN gs[q].acc = TopBlocks(Store0.trie, Store0.ls, gs[q].ps, gs[q].k, gs[q].depth)
      ELSE IF gs[q].kind \in {"qnet", "qnetslow"} THEN gs[q].graph = NetFast(Store0.trie, Store0.ls, gs[q].out, gs[q].auto)
+     ELSE IF gs[q].kind = "qpagelinks"
+          THEN SeqToSet(gs[q].acc) = WeLinksBlocks(Store0.trie, Store0.ls, gs[q].weid, gs[q].ps, gs[q].inb, gs[q].int, gs[q].out)
+               /\ Len(gs[q].acc) = Cardinality(SeqToSet(gs[q].acc))
+     ELSE IF gs[q].kind = "qchildren" THEN gs[q].acc = ChildrenBlocks(Store0.trie, gs[q].weid, gs[q].ps)
      ELSE TRUE
 =============================================================================
